@@ -287,6 +287,8 @@ def _text(v):
 def one_fit(ctx, rh, rw, th, tw, kind, fill, offset, iterative=False):
     src_vals = grid(fill, rh, rw, offset)
     template, f = FIT_KINDS[kind]
+    # (the member cells of an array formula refer to their target by sheet name: also names that need quotes)
+    sheet = ('Sheet1', 'Sheet1', 'My Sheet', 'P&L 2024')[(rh + rw + th + tw + offset) % 4]
     cells = {'J9': 100}
     for i in range(rh):
         for j in range(rw):
@@ -294,7 +296,7 @@ def one_fit(ctx, rh, rw, th, tw, kind, fill, offset, iterative=False):
     src = f'A1:{wb.coord(rw, rh)}' if (rh, rw) != (1, 1) else 'A1'
     target = f'A10:{wb.coord(tw, 9 + th)}' if (th, tw) != (1, 1) else 'A10'
     formula = template.format(src=src, rh=rh, rw=rw)
-    spec = {'sheets': [['Sheet1', cells]], 'names': {}, 'arrays': [['Sheet1', target, formula]],
+    spec = {'sheets': [[sheet, cells]], 'names': {}, 'arrays': [[sheet, target, formula]],
             'calc': {'iterate': True, 'count': 20, 'delta': 0.001} if iterative else None}
     case = {'kind': 'fit', 'rh': rh, 'rw': rw, 'th': th, 'tw': tw, 'fkind': kind, 'fill': fill, 'offset': offset,
             'iterative': iterative}
@@ -310,7 +312,7 @@ def one_fit(ctx, rh, rw, th, tw, kind, fill, offset, iterative=False):
         result = tuple(tuple(f(v) for v in row) for row in values)
         want = fit_expected(result, th, tw)
         if (th, tw) != (1, 1):
-            got = wb.outcome(comp.evaluate, f'Sheet1!{target}')
+            got = wb.outcome(comp.evaluate, f'{sheet}!{target}')
             if got[0] == 'x':
                 ctx.violation(f'array-range-raises/{tag}', f'{label}: evaluate({target}) raised {got[1]}', case)
                 return False
@@ -330,7 +332,7 @@ def one_fit(ctx, rh, rw, th, tw, kind, fill, offset, iterative=False):
                     return False
         for i in range(th):
             for j in range(tw):
-                m = f'Sheet1!{wb.coord(1 + j, 10 + i)}'
+                m = f'{sheet}!{wb.coord(1 + j, 10 + i)}'
                 got = wb.outcome(comp.evaluate, m)
                 ctx.count('fit_member_cells')
                 if got[0] == 'x' or not wb.same(got[1], want[i][j]):
@@ -340,7 +342,7 @@ def one_fit(ctx, rh, rw, th, tw, kind, fill, offset, iterative=False):
                     return False
         # a rectangle anchored at the target's first cell that reaches over blank cells next to it: the array
         # formula must not spread into them
-        big = f'Sheet1!A10:{wb.coord(tw + 1, 9 + th + 2)}'
+        big = f'{sheet}!A10:{wb.coord(tw + 1, 9 + th + 2)}'
         got = wb.outcome(comp.evaluate, big)
         ctx.count('fit_oversized_reader_ranges')
         from vp.checks.c05 import elements
@@ -371,7 +373,7 @@ def one_fit(ctx, rh, rw, th, tw, kind, fill, offset, iterative=False):
     # change one source cell
     new = [list(r) for r in src_vals]
     new[rh - 1][rw - 1] = 41 if fill != 'float' else 41.5
-    comp.set_value(f'Sheet1!{wb.coord(rw, rh)}', new[rh - 1][rw - 1])
+    comp.set_value(f'{sheet}!{wb.coord(rw, rh)}', new[rh - 1][rw - 1])
     ctx.count('fit_after_set_value')
     check(tuple(tuple(r) for r in new), 'after set_value on a source cell')
 
